@@ -49,13 +49,15 @@ class Grammar:
         self.note = note
         self.extra = extra or []  # additional explicit inputs (latin-1 strings)
         self.selectors = []       # parse-tree selectors 1..: dict ctype -> mode (1 store, 2 remove_content, 3 fold_one, 4 discard_empty)
+        self.fam1 = {}            # scripted actions of the second action family (C13): ctype -> kind
+        self.switches = {}        # attached switches: str(family) -> { ctype: [name, a, b] }
         self.maxlen = maxlen      # (quick, thorough) exhaustive input length, None = default
 
     def to_json(self):
         return {"rules": [r.to_json() for r in self.rules], "actions": self.actions,
                 "errmsg": {str(k): v for k, v in self.errmsg.items()}, "nonempty_slots": self.nonempty_slots,
                 "veto": self.veto, "throw": self.throw, "alphabet": self.alphabet, "note": self.note,
-                "extra": self.extra, "maxlen": self.maxlen, "selectors": self.selectors}
+                "extra": self.extra, "maxlen": self.maxlen, "selectors": self.selectors, "fam1": self.fam1, "switches": self.switches}
 
     @staticmethod
     def from_json(j):
@@ -64,6 +66,8 @@ class Grammar:
                     j.get("veto", False), j.get("throw", False), j.get("alphabet"), j.get("note", ""),
                     j.get("extra"), j.get("maxlen"))
         g.selectors = j.get("selectors", [])
+        g.fam1 = j.get("fam1", {})
+        g.switches = j.get("switches", {})
         return g
 
     def nslots(self):
@@ -161,11 +165,11 @@ def ctype(n):
     if o == "limit_depth":
         return "limit_depth< %d, %s >" % (p["n"], K())
     if o == "state":
-        return "state< vf::obs_state< %d >, %s >" % (p["id"], K())
+        return "state< vf::obs_state%s< %d >, %s >" % ("_dc" if p["id"] % 3 == 0 else "", p["id"], K())
     if o == "action":
-        return "action< act%d, %s >" % (p["fam"], K())
+        return "action< %s, %s >" % ("act1" if p["fam"] else "act", K())
     if o == "control":
-        return "control< vf::obs_control_unw, %s >" % K()
+        return "control< vf::obs_control_b, %s >" % K()
     raise ValueError("ctype: " + o)
 
 
@@ -178,7 +182,7 @@ def pretty(g):
 
 class M:
     """model node"""
-    __slots__ = ("op", "kids", "s", "a", "b", "ctype", "action", "errmsg")
+    __slots__ = ("op", "kids", "s", "a", "b", "ctype", "action", "errmsg", "rs")
 
     def __init__(self, op, kids=(), s="", a=0, b=0):
         self.op = op
@@ -189,6 +193,7 @@ class M:
         self.ctype = None
         self.action = 0
         self.errmsg = ""
+        self.rs = None  # rule-level switch for C13: (kind, a)
 
 
 class E:
@@ -467,6 +472,18 @@ class Lowered:
         if n.op == "if_then" and (len(n.p["thens"]) > 1 or n.p["else"] >= 0) and not re.fullmatch(r"R\d+", ct):
             return  # else_if_then / else_then chains are aliases of internal (control-disabled) types: invisible to controls
         m.ctype = ct
+        if n.op == "state":
+            m.rs = (1, n.p["id"])
+        elif n.op == "action":
+            m.rs = (2, n.p["fam"])
+        elif n.op == "control":
+            m.rs = (3, 1)
+        elif n.op == "enable":
+            m.rs = (4, -1)
+        elif n.op == "disable":
+            m.rs = (5, -1)
+        elif n.op in ("at", "not_at"):
+            m.rs = (6, -1)
         if n.op == "raise_message":
             m.errmsg = n.p["msg"]  # raise_message< Cs... > carries its text as error_message
         m.action = self.g.actions.get(ct, 0)
@@ -585,16 +602,43 @@ def emit_grammar(g, gi, cfgset_macro="VF_CFGS"):
     out.append("using namespace tao::pegtl;")
     for i in range(len(g.rules)):
         out.append("struct R%d;" % i)
+    out.append("template< typename R > struct act;")
+    out.append("template< typename R > struct act1;")
     for i, r in enumerate(g.rules):
         body = ctype(r)
         if i in g.errmsg:
             out.append("struct R%d : %s { static constexpr const char* error_message = \"%s\"; };" % (i, body, g.errmsg[i]))
         else:
             out.append("struct R%d : %s {};" % (i, body))
-    out.append("template< typename R > struct act : nothing< R > {};")
+    out.append("template< typename R > struct act : nothing< R > { static constexpr int fam = 0; };")
+    out.append("template< typename R > struct act1 : nothing< R > { static constexpr int fam = 1; };")
     KIND = {1: "pm::VOID_APPLY", 2: "pm::VOID_APPLY0", 3: "pm::BOOL_APPLY", 4: "pm::BOOL_APPLY0"}
     for ct, kind in sorted(g.actions.items()):
-        out.append("template<> struct act< %s > : vf::scripted< %s, %s > {};" % (ct, KIND[kind], ct))
+        out.append("template<> struct act< %s > : vf::scripted< %s, %s, 0 > {};" % (ct, KIND[kind], ct))
+    for ct, kind in sorted(g.fam1.items()):
+        out.append("template<> struct act1< %s > : vf::scripted< %s, %s, 1 > {};" % (ct, KIND[kind], ct))
+
+    def switch_class(spec):
+        name, a, b = spec
+        fam = lambda k: "act1" if k else "act"
+        if name == "change_action":
+            return "tao::pegtl::change_action< %s >" % fam(a)
+        if name == "change_state":
+            return "tao::pegtl::change_state< vf::obs_state%s< %d > >" % ("_dc" if b == 1 else "", a)
+        if name == "change_states":
+            return "vf::cs_switch< %d >" % a
+        if name == "change_action_and_state":
+            return "tao::pegtl::change_action_and_state< %s, vf::obs_state%s< %d > >" % (fam(a), "_dc" if b % 2 else "", b)
+        if name == "change_control":
+            return "tao::pegtl::change_control< vf::obs_control_b >"
+        if name == "enable_action":
+            return "tao::pegtl::enable_action"
+        if name == "disable_action":
+            return "tao::pegtl::disable_action"
+        raise ValueError(name)
+    for famk, table in sorted(g.switches.items()):
+        for ct, spec in sorted(table.items()):
+            out.append("template<> struct %s< %s > : %s {};" % ("act1" if int(famk) else "act", ct, switch_class(spec)))
     if g.selectors:
         PT = "tao::pegtl::parse_tree::"
         out.append("template< typename Rule > using sel0 = %sinternal::store_all< Rule >;" % PT)
@@ -629,6 +673,15 @@ def emit_grammar(g, gi, cfgset_macro="VF_CFGS"):
             continue
         seen.add(ct)
         out.append(" reg.map[ std::type_index( typeid( %s ) ) ] = %d;" % (ct, idx))
+    for i, m in enumerate(L.nodes):
+        if m.rs and m.ctype:
+            out.append(" reg.rule_switch[ %d ] = vf::sw{ %d, %d, -1 };" % (i, m.rs[0], m.rs[1]))
+    SWK = {"change_action": 10, "change_state": 11, "change_action_and_state": 12, "change_states": 13, "change_control": 14,
+           "enable_action": 15, "disable_action": 16}
+    for famk, table in sorted(g.switches.items()):
+        for ct, spec in sorted(table.items()):
+            name, a, b = spec
+            out.append(" reg.attached[ %d ][ std::type_index( typeid( %s ) ) ] = vf::sw{ %d, %d, %d };" % (int(famk), ct, SWK[name], a, b))
     out.append(" g.top = %d;" % L.rule_idx[0])
     out.append(" g.eol_policy = VF_EOL_ID;")
     out.append(" g.tag.assign( g.nodes.size(), 0 ); for( std::size_t i = 0; i < g.nodes.size(); ++i ) if( !g.nodes[ i ].tname.empty() ) g.tag[ i ] = int( vf::tag_of_name( g.nodes[ i ].tname ) );")
@@ -835,6 +888,13 @@ class Gen:
             return N(o, k(r.choice([1, 1, 2])))
         if o == "separated_seq":
             return N(o, k(r.choice([2, 3, 4])))
+        if o == "state":
+            self.state_counter = getattr(self, "state_counter", 0) + 1
+            return N(o, k(r.choice([1, 1, 2])), id=self.state_counter)
+        if o == "action":
+            return N(o, k(r.choice([1, 1, 2])), fam=r.randrange(2))
+        if o == "control":
+            return N(o, k(r.choice([1, 1, 2])))
         raise ValueError(o)
 
     def grammar(self, tries=200):
